@@ -131,7 +131,7 @@ def replay(path):
     if isinstance(rp, dict) and "args" in rp:
         args = [str(a) for a in rp["args"]]
     elif isinstance(rp, dict) and "cmd" in rp:
-        m = re.search(r"REPLAYARGS ((?:\S+ ?)+?)(?: \(|$)", rp.get("case", ""))
+        m = re.search(r"REPLAYARGS ([^()]*?)\s*(?:\(|$)", rp.get("case", ""))
         if m:
             args = m.group(1).split()
     rc = 0
